@@ -165,6 +165,23 @@ def run(case):
         add(o.pos + 1, ref.base(o.pos), [o.op[2]], rng.choice(["./.", "1", "0/1/1", "./1"]))
         used_pos.add(o.pos + 1)
         ignored.append(o)
+    # an uncatalogued multi-nucleotide / complex record of equal REF and ALT length that *starts* on a catalogued
+    # SNP site with that SNP's alternate base: another shape, hence no support for the SNP
+    cat_mnp_starts = {m.pos for m in allm if kind_of(m.op) in ("mnp", "delins")}
+    for o in others:
+        if rng.random() < 0.5 and (o.pos + 1) not in used_pos and (o.pos + 2) not in used_pos \
+                and o.pos not in cat_mnp_starts and not any(m.pos in (o.pos + 1, o.pos + 2) for m in allm):
+            n = rng.choice([2, 3])
+            rb = ref.slice(o.pos, o.pos + n)
+            if "N" in rb or len(rb) < n or rb[0] != o.op[0]:
+                continue
+            flip = {"A": "C", "C": "A", "G": "T", "T": "G"}
+            alt = o.op[2] + "".join(flip[b] for b in rb[1:])
+            add(o.pos + 1, rb, [alt], rng.choice(["0/1", "1/1", "0|1"]))
+            used_pos.add(o.pos + 1)
+            ignored.append(o)
+            odd += 1
+            break
     scratch = util.scratch_dir()
     vcf = vcfgen.write_vcf(os.path.join(scratch, "in.vcf"), g.chr, db.contig_len, records, samples)
     desc = {"db": db.label, "allele": list(target), "gt": gt, "mnp_style": mnp_style, "samples": nsamp,
